@@ -5,6 +5,9 @@ Only property theorems and their non-vacuity examples live here; helper lemmas a
 `WtVerif/Lemmas`. Every statement quantifies over all values / payloads / remaining input.
 -/
 import WtVerif.Lemmas.Frame
+import WtVerif.Lemmas.Settings
+import WtVerif.Lemmas.Huffman
+import WtVerif.Lemmas.Qpack
 
 namespace Props.C14
 open Varint
@@ -93,6 +96,56 @@ theorem datagram_too_small (q : Nat) (payload : Bytes) (cap : Nat)
     (hcap : cap < Datagram.writeSize q payload) : Datagram.write q payload cap = none := by
   unfold Datagram.write; simp [hcap]
 
+
+/-! ### SETTINGS -/
+
+/-- Whatever order `generate_frame` walks the settings map in, `with_frame` on the payload it
+wrote returns exactly those entries; a map has distinct ids, GREASE ids are GREASE ids, and ids
+and values are representable integers. -/
+theorem settings_roundtrip (s : Settings)
+    (hwf : ∀ p ∈ s, p.1.WF ∧ p.1.id < 2^62 ∧ p.2 < 2^62) (hnd : (s.map (·.1)).Nodup) :
+    Settings.withPayload (Settings.encode s) [] = .ok s := by
+  have := Settings.withPayload_encode s [] hwf hnd (fun _ _ => rfl)
+  simpa using this
+
+/-! ### header-field sections (QPACK with the linked Huffman coder) -/
+
+/-- The linked Huffman coder is an inverse pair on every byte string (the per-symbol facts are
+decided by the kernel over the whole regenerated tables). -/
+theorem huffman_roundtrip (s : Bytes) : Huffman.decode (Huffman.encode s) = some s :=
+  Huffman.decode_encode s
+
+/-- QPACK prefix integers of every prefix width round-trip and leave what follows untouched. -/
+theorem qpack_int_roundtrip (n flags v : Nat) (rest : Bytes) (hn : 1 ≤ n ∧ n ≤ 8)
+    (hf : flags < 2 ^ (8 - n)) (hv : v < 2 ^ 64) :
+    Qpack.decodeInt n (Qpack.encodeInt n flags v ++ rest) = .ok (flags, v, rest) :=
+  Qpack.decodeInt_encodeInt n flags v rest hn hf hv
+
+/-- QPACK string literals round-trip for every valid UTF-8 string, whether the Huffman form or
+the raw form was the shorter one. -/
+theorem qpack_string_roundtrip (n flags : Nat) (s rest : Bytes) (hn : 1 ≤ n ∧ n ≤ 8)
+    (hf : flags * 2 + 1 < 2 ^ (8 - n)) (hu : Utf8.valid s = true) (hl : s.length < 2 ^ 64) :
+    Qpack.decodeString n (Qpack.encodeString n flags s ++ rest) = .ok (s, rest) :=
+  Qpack.decodeString_encodeString n flags s rest hn hf hu (Huffman.decode_encode s) hl
+
+/-- **Header sections round-trip**: for every list of fields over valid UTF-8 names and values
+(static-table hits, name-only hits and literals alike), decoding the encoding yields the map of
+those fields. -/
+theorem header_section_roundtrip (fs : List Qpack.Field)
+    (hu : ∀ f ∈ fs, Utf8.valid f.1 = true ∧ Utf8.valid f.2 = true ∧ f.1.length < 2^64 ∧ f.2.length < 2^64) :
+    Qpack.decode (Qpack.encode fs) = .ok (fs.foldl (fun m f => Qpack.mapInsert m f.1 f.2) []) :=
+  Qpack.decode_encode fs (fun f hf =>
+    ⟨(hu f hf).1, (hu f hf).2.1, Huffman.decode_encode _, Huffman.decode_encode _, (hu f hf).2.2.1, (hu f hf).2.2.2⟩)
+
+/-- …and when the names are distinct (the iteration of a `HashMap`), exactly those fields in
+that order. -/
+theorem header_map_roundtrip (fs : List Qpack.Field)
+    (hu : ∀ f ∈ fs, Utf8.valid f.1 = true ∧ Utf8.valid f.2 = true ∧ f.1.length < 2^64 ∧ f.2.length < 2^64)
+    (hnd : (fs.map (·.1)).Nodup) :
+    Qpack.decode (Qpack.encode fs) = .ok fs := by
+  rw [header_section_roundtrip fs hu, Qpack.foldl_mapInsert_nodup fs [] (by simpa using hnd)]
+  rfl
+
 /-! ### non-vacuity: concrete values meeting the hypotheses -/
 
 example : dec (enc 16384 ++ [7]) = some (16384, [7]) := by decide
@@ -103,5 +156,15 @@ example : Frame.WF ⟨.exercise 33, [1, 2, 3], none⟩ := ⟨by decide, by decid
 example : Frame.read (Frame.write ⟨.headers, [1, 2, 3], none⟩ ++ [9]) = .frame ⟨.headers, [1, 2, 3], none⟩ [9] := by
   decide
 example : StreamHeader.WF ⟨.webtransport, some 8⟩ := ⟨8, rfl, by decide, by decide⟩
+example : Qpack.decode (Qpack.encode [([58, 109, 101, 116, 104, 111, 100], [67, 79, 78, 78, 69, 67, 84]), ([120], [121, 122])])
+    = .ok [([58, 109, 101, 116, 104, 111, 100], [67, 79, 78, 78, 69, 67, 84]), ([120], [121, 122])] := by decide +kernel
+example : (SettingId.exercise 64).WF := by show SettingId.isExercise 64 = true; decide
+example : Settings.withPayload (Settings.encode [(.h3Datagram, 1), (.exercise 64, 9)]) [] = .ok [(.h3Datagram, 1), (.exercise 64, 9)] := by
+  refine settings_roundtrip _ ?_ (by decide)
+  intro p hp
+  simp only [List.mem_cons, List.not_mem_nil, or_false] at hp
+  rcases hp with rfl | rfl
+  · exact ⟨trivial, by decide, by decide⟩
+  · exact ⟨by show SettingId.isExercise 64 = true; decide, by decide, by decide⟩
 
 end Props.C14
